@@ -449,7 +449,8 @@ func c29Dispatch(pch **c29Child, toks []string) string {
 			return "timeout child-died"
 		}
 		if strings.HasPrefix(r.s, "timeout") {
-			// the child answered `timeout` and exits (its pool may be wedged)
+			// the child answered `timeout`: its goroutines may be wedged for good — it is killed, the next op gets a fresh one
+			ch.cmd.Process.Kill()
 			ch.cmd.Wait()
 			*pch = nil
 		}
